@@ -32,6 +32,13 @@ pub struct Profile {
     pub macro_pct: u64,
     pub faulted: bool,
     pub zero_liq_fee_pct: u64,
+    /// chance of an extra vAMM that is neither open nor registered at deployment
+    pub extra_vamm_pct: u64,
+    /// chance that the extra vAMM has decimals different from the engine's
+    pub mismatch_decimals_pct: u64,
+    /// chance (per random op) of undoing pause / closed / unregistered states
+    pub heal_pct: u64,
+    pub shutdown_pct: u64,
 }
 
 impl Default for Profile {
@@ -50,6 +57,10 @@ impl Default for Profile {
             macro_pct: 12,
             faulted: false,
             zero_liq_fee_pct: 3,
+            extra_vamm_pct: 10,
+            mismatch_decimals_pct: 50,
+            heal_pct: 30,
+            shutdown_pct: 25,
         }
     }
 }
@@ -97,6 +108,19 @@ pub fn rand_cfg(rng: &mut Rng, p: &Profile) -> DeployCfg {
             decimals: None,
             live: true,
         });
+    }
+    if rng.chance(p.extra_vamm_pct, 100) && vamms.len() <= 3 {
+        let mut extra = vamms[0].clone();
+        extra.live = false;
+        if rng.chance(p.mismatch_decimals_pct, 100) {
+            extra.decimals = Some(dec + 1);
+            extra.quote_reserve *= 10;
+            extra.base_reserve *= 10;
+            extra.toll *= 10;
+            extra.spread *= 10;
+            extra.fluct *= 10;
+        }
+        vamms.push(extra);
     }
     let initial = *rng.pick(&[d / 20, d / 10, d / 5]);
     let maint = *rng.pick(&[initial, initial / 2, initial / 4 * 3, d / 40]);
@@ -609,7 +633,7 @@ impl Gen {
             }
             _ => {
                 let owner = h.last.ins_owner.clone();
-                if self.rng.chance(1, 4) {
+                if self.rng.chance(self.prof.shutdown_pct, 100) {
                     h.step(Op::Insurance { sender: owner, msg: ins::ExecuteMsg::ShutdownVamms {} }, r)
                 } else {
                     let paused = h.last.eng.paused;
@@ -637,7 +661,34 @@ impl Gen {
         h.step(Op::Allowance { owner: t, amount }, r)
     }
 
+    /// undo pause / closed / unregistered states so that histories do not stay vacuous for long
+    pub fn heal(&mut self, h: &mut History, r: &mut Report) {
+        if h.last.eng.paused {
+            let pauser = h.last.eng.pauser.clone();
+            h.step(Op::Engine { sender: pauser, msg: eng::ExecuteMsg::SetPause { pause: false }, funds: 0 }, r);
+            return;
+        }
+        for v in 0..h.w.vamms.len() {
+            if !h.w.cfg.vamms[v].live {
+                continue;
+            }
+            if !h.last.vamms[v].open {
+                let owner = h.last.vamms[v].owner.clone();
+                h.step(Op::Vamm { sender: owner, vamm: v, msg: vm::ExecuteMsg::SetOpen { open: true } }, r);
+                return;
+            }
+            if !h.last.vamms[v].registered {
+                let owner = h.last.ins_owner.clone();
+                h.step(Op::Insurance { sender: owner, msg: ins::ExecuteMsg::AddVamm { vamm: Self::vaddr(h, v) } }, r);
+                return;
+            }
+        }
+    }
+
     pub fn rand_op(&mut self, h: &mut History, r: &mut Report) -> Rc<Step> {
+        if self.rng.chance(self.prof.heal_pct, 100) {
+            self.heal(h, r);
+        }
         let ws = self.prof.w_ops;
         match self.rng.weighted(&ws) {
             0 => self.rand_open(h, r),
